@@ -57,14 +57,21 @@ RULE = ("five streams from one PRNG. (1) static: random Hypergraph, 3-8 labels f
         "listing is a connected 3- or 4-uniform hypergraph on 0..N-1, the averaged ones for temporal objects) against the object's OWN "
         "get_nodes() / get_edges(). In every other stream 60-65 % of the objects are reached through a history (random "
         "walk of add/remove operations, in-place mutation between two calls with and without a change of the node / "
-        "hyperedge counts, copies). A case is distinct by its canonical input (construction mode and contents); "
+        "hyperedge counts, copies). WEIGHTS: half of the objects of every stream are built weighted=True with non-unit weights (2, 0.5, 7, "
+        "3.25, 0.125, 10, 0, 1e6, 1e-3, ...; present hyperedges added once more so that weights add up); no centrality of the property reads "
+        "them, the demands are the same, and the relabelled twin of a case is weighted iff the case is not. MEMBER-LESS HYPEREDGES: 40 % of the "
+        "static / temporal cases (25 % of the dense ones, and the sessions) carry the hyperedge without members `()` - added as such, or left behind by "
+        "remove_node(x, keep_edges=True) on a node with a singleton hyperedge (temporal: remove_node with and without keep_edges, `()` added "
+        "at a time) - also between two calls on the same object: it is a hyperedge like any other (one value, an isolated vertex of both "
+        "projections that counts in networkx's normalisation). A case is distinct by its canonical input (construction mode and contents); "
         "non-trivial when the centralities it produced take >= 2 distinct values")
 ASSUMPTIONS = ["labels of one hypergraph are mutually comparable (all int or all str) and are mapped to their rank before they reach the model",
                "node labels are not tuples (a node never equals a hyperedge as a dict key)",
                "sessions: nothing is assumed about the content of an object (no expected listing): a call that raises is an observation, "
                "whatever it leaves behind is the hypergraph the user holds, and every centrality is judged against get_nodes() / get_edges() of "
-               "that object; objects listing a hyperedge without members (the generator never removes the only member of a hyperedge with keep_edges=True) "
-               "or labels that do not sort (only a changed implementation produces them) are skipped",
+               "that object; objects whose labels do not sort (only a changed implementation produces them) are skipped",
+               "weights: the projections are unweighted, W of CEC and the adjacency matrix COUNT common hyperedges (docstrings of CEC_centrality and "
+               "linalg.adjacency_matrix), the eigen-equation of HEC sums over hyperedges: no centrality depends on the weights of a weighted hypergraph",
                "CEC/HEC: connected k-uniform hypergraphs with k in {3,4} on nodes 0..N-1 (as the routines demand)",
                "CEC/HEC eigen-equation: demanded at the bound that the documented defaults guarantee (CEC tol=1e-7, max_iter=1000; "
                "HEC tol=1e-6, max_iter=100) whenever the documented iteration, run by the harness from the recorded random start, "
@@ -323,7 +330,7 @@ def sim_static(ops):
         k, a = op[0], op[1]
         if k == "add_edge":
             e = tuple(sorted(a))
-            if len(set(e)) != len(e) or not e:
+            if len(set(e)) != len(e):
                 raise BadOps(op)
             edges.setdefault(e, 1)
             for x in e:
@@ -340,28 +347,76 @@ def sim_static(ops):
                 raise BadOps(op)
             del nodes[a]
             edges = {e: 1 for e in edges if a not in e}
+        elif k == "rm_node_keep":
+            # remove_node(a, keep_edges=True): the hyperedges of `a` stay without it (equal ones merge; a singleton leaves the
+            # hyperedge without members `()` behind)
+            if a not in nodes:
+                raise BadOps(op)
+            del nodes[a]
+            edges = {tuple(x for x in e if x != a): 1 for e in edges}
         else:
             raise BadOps(op)
     return list(nodes), list(edges)
 
 
-def apply_static(h, ops, f=None):
+# weights of weighted hypergraphs: no centrality of the property reads them (the projections are unweighted, W and the adjacency
+# matrix COUNT common hyperedges), so every stream builds half of its objects weighted, with non-unit weights
+WEIGHT_POOL = [2, 0.5, 7, 3.25, 4, 0.125, 10, 1, 0, 1e6, 1e-3, 3, 2.5]
+
+
+def weight_of(wt, i):
+    return WEIGHT_POOL[(3 * wt + 5 * i) % len(WEIGHT_POOL)]
+
+
+def weighted_ctor(cls, apply_ops, wt):
+    """(constructor, apply) of the objects of a case: weighted with the weights `weight_of(wt, .)` when `wt` is given"""
+    if wt is None:
+        return cls, apply_ops
+    return (lambda: cls(weighted=True)), (lambda h, ops, f=None: apply_ops(h, ops, f, wt))
+
+
+def twin_note(case):
+    return " (the relabelled twin is " + ("built weighted=True with non-unit weights" if case.get("wt") is None else "unweighted") \
+        + ", the object itself is " + ("unweighted" if case.get("wt") is None else "weighted with non-unit weights") + ")"
+
+
+def flip_wt(case):
+    """the relabelled twin of a case is weighted iff the case is not: the values must be carried along all the same"""
+    return {**case, "wt": None if case.get("wt") is not None else 4}
+
+
+def apply_static(h, ops, f=None, wt=None):
     f = f or (lambda x: x)
-    for op in ops:
+    for i, op in enumerate(ops):
         k, a = op[0], op[1]
         if k == "add_edge":
-            h.add_edge(tuple(f(x) for x in a))
+            h.add_edge(tuple(f(x) for x in a), **({"weight": weight_of(wt, i)} if wt is not None else {}))
         elif k == "rm_edge":
             h.remove_edge(tuple(f(x) for x in a))
         elif k == "add_node":
             h.add_node(f(a))
         elif k == "rm_node":
             h.remove_node(f(a))
+        elif k == "rm_node_keep":
+            h.remove_node(f(a), keep_edges=True)
 
 
 def sim_temporal(ops):
     recs = {}
     for op in ops:
+        if op[0] == "rmn":
+            # remove_node(x, keep_edges): the records of x go / stay without x (a record left without members goes as well)
+            x, keep = op[1], op[2]
+            if not any(x in e for _, e in recs):
+                raise BadOps(op)
+            new = {}
+            for (t, e) in recs:
+                if x not in e:
+                    new[(t, e)] = 1
+                elif keep and len(e) > 1:
+                    new[(t, tuple(y for y in e if y != x))] = 1
+            recs = new
+            continue
         k, e, t = op[0], tuple(sorted(op[1])), op[2]
         if k == "add":
             recs.setdefault((t, e), 1)
@@ -374,12 +429,15 @@ def sim_temporal(ops):
     return list(recs)
 
 
-def apply_temporal(T, ops, f=None):
+def apply_temporal(T, ops, f=None, wt=None):
     f = f or (lambda x: x)
-    for op in ops:
+    for i, op in enumerate(ops):
+        if op[0] == "rmn":
+            T.remove_node(f(op[1]), keep_edges=bool(op[2]))
+            continue
         e = tuple(f(x) for x in op[1])
         if op[0] == "add":
-            T.add_edge(e, op[2])
+            T.add_edge(e, op[2], **({"weight": weight_of(wt, i)} if wt is not None else {}))
         else:
             T.remove_edge(e, op[2])
 
@@ -580,16 +638,17 @@ def gen_edges(rng, labels, lo=1, hi=7):
     return edges
 
 
-def walk_static(rng, labels, ops, steps, swap=False):
+def walk_static(rng, labels, ops, steps, swap=False, empties=False):
     """continues the history `ops` by `steps` applicable random operations (additions favoured; removed hyperedges are
     re-inserted with preference); `swap`: one hyperedge is replaced by another one of the same size over the present nodes,
-    so that the node and hyperedge counts stay what they were"""
+    so that the node and hyperedge counts stay what they were; `empties`: the walk also adds the hyperedge without members and removes nodes with
+    keep_edges=True (nodes that have a singleton hyperedge preferred: their removal leaves `()` behind)"""
     ops = [list(o) for o in ops]
     removed = []
     nodes, edges = sim_static(ops)
     if swap and edges and len(nodes) >= 2:
         e = rng.choice(edges)
-        for _ in range(30):
+        for _ in range(30 if e and len(e) <= len(nodes) else 0):
             f = tuple(sorted(rng.sample(nodes, len(e))))
             if f not in edges:
                 return ops + [["rm_edge", list(e)], ["add_edge", list(f)]]
@@ -599,6 +658,13 @@ def walk_static(rng, labels, ops, steps, swap=False):
         if r < 0.55 or not edges:
             if removed and rng.random() < 0.4:
                 e = removed.pop(rng.randrange(len(removed)))
+            elif edges and rng.random() < 0.08:
+                # a present hyperedge is added once more (a weighted hypergraph adds the weights up; the listing stays)
+                e = rng.choice(edges)
+            elif empties and rng.random() < 0.15:
+                e = ()
+            elif empties and rng.random() < 0.2:
+                e = (rng.choice(labels),)
             else:
                 e = gen_edge(rng, labels, edges)
             ops.append(["add_edge", list(e)])
@@ -610,6 +676,12 @@ def walk_static(rng, labels, ops, steps, swap=False):
             ops.append(["add_node", rng.choice(labels)])
         elif nodes:
             x = rng.choice(nodes)
+            if empties and rng.random() < 0.7:
+                single = [e[0] for e in edges if len(e) == 1]
+                if single and rng.random() < 0.7:
+                    x = rng.choice(single)
+                ops.append(["rm_node_keep", x])
+                continue
             removed.extend(e for e in edges if x in e)
             ops.append(["rm_node", x])
     return ops
@@ -619,20 +691,24 @@ def gen_static(rng):
     n = rng.randint(3, 8)
     labels = gen_labels(rng, n)
     via = pick_via(rng)
+    wt = rng.randrange(len(WEIGHT_POOL)) if rng.random() < 0.5 else None
+    empties = rng.random() < 0.4
     if via is None:
         edges = gen_edges(rng, labels)
+        if empties:
+            edges.insert(rng.randint(0, len(edges)), ())
         iso = [x for x in labels if rng.random() < 0.2]
-        return {"kind": "static", "labels": labels, "edges": edges, "isolated": iso, "iso_first": rng.random() < 0.5}
+        return {"kind": "static", "labels": labels, "edges": edges, "isolated": iso, "iso_first": rng.random() < 0.5, "wt": wt}
     for _ in range(50):
-        pre = walk_static(rng, labels, [], rng.randint(4, 14))
+        pre = walk_static(rng, labels, [], rng.randint(4, 14), empties=empties)
         nodes, edges = sim_static(pre)
         # now and then an object that has lost all its hyperedges
         if (edges or rng.random() < 0.1) and len(nodes) >= 2 and any(o[0].startswith("rm") for o in pre):
             break
-    case = {"kind": "static", "labels": labels, "via": via, "pre": pre}
+    case = {"kind": "static", "labels": labels, "via": via, "pre": pre, "wt": wt}
     if via != "history":
         for _ in range(50):
-            post = walk_static(rng, labels, pre, rng.randint(1, 4), swap=rng.random() < 0.45)[len(pre):]
+            post = walk_static(rng, labels, pre, rng.randint(1, 4), swap=rng.random() < 0.45, empties=empties)[len(pre):]
             after = sim_static(pre + post)
             if (set(after[0]), set(after[1])) != (set(nodes), set(edges)) and (after[1] or rng.random() < 0.15):
                 break
@@ -640,15 +716,23 @@ def gen_static(rng):
     return case
 
 
-def walk_temporal(rng, labels, ops, steps, tmax):
+def walk_temporal(rng, labels, ops, steps, tmax, empties=False):
     ops = [list(o) for o in ops]
     removed = []
     for _ in range(steps):
         recs = sim_temporal(ops)
         r = rng.random()
+        members = sorted({x for _, e in recs for x in e})
+        if empties and members and r > 0.88:
+            # remove_node, mostly with keep_edges=True (the records of the node stay without it)
+            ops.append(["rmn", rng.choice(members), rng.random() < 0.75])
+            continue
         if r < 0.68 or not recs:
             if removed and rng.random() < 0.4:
                 t, e = removed.pop(rng.randrange(len(removed)))
+            elif empties and rng.random() < 0.2:
+                # the hyperedge without members, at a time that has other records as a rule
+                e, t = (), (rng.choice(recs)[0] if recs and rng.random() < 0.8 else rng.randint(1, tmax))
             elif recs and rng.random() < 0.25:
                 # a hyperedge that exists at another time
                 e = rng.choice(recs)[1]
@@ -668,23 +752,27 @@ def gen_temporal(rng):
     labels = gen_labels(rng, n)
     tmax = rng.randint(1, 4)
     via = pick_via(rng)
+    wt = rng.randrange(len(WEIGHT_POOL)) if rng.random() < 0.5 else None
+    empties = rng.random() < 0.4
     if via is None:
         edges = gen_edges(rng, labels, 2, 9)
+        if empties:
+            edges.insert(rng.randint(0, len(edges)), ())
         times = [rng.randint(1, tmax) for _ in edges]
         if rng.random() < 0.5 and len(edges) >= 2:
             # the same hyperedge at two times
             edges.append(edges[0])
             times.append(times[0] % tmax + 1 if tmax > 1 else times[0] + 1)
-        return {"kind": "temporal", "labels": labels, "edges": edges, "times": times}
+        return {"kind": "temporal", "labels": labels, "edges": edges, "times": times, "wt": wt}
     for _ in range(50):
-        pre = walk_temporal(rng, labels, [], rng.randint(4, 13), tmax)
+        pre = walk_temporal(rng, labels, [], rng.randint(4, 13), tmax, empties)
         recs = sim_temporal(pre)
-        if len(recs) >= 2 and any(o[0] == "rm" for o in pre):
+        if len(recs) >= 2 and any(o[0] in ("rm", "rmn") for o in pre):
             break
-    case = {"kind": "temporal", "labels": labels, "via": via, "pre": pre}
+    case = {"kind": "temporal", "labels": labels, "via": via, "pre": pre, "wt": wt}
     if via != "history":
         for _ in range(50):
-            post = walk_temporal(rng, labels, pre, rng.randint(1, 3), tmax + (1 if rng.random() < 0.3 else 0))[len(pre):]
+            post = walk_temporal(rng, labels, pre, rng.randint(1, 3), tmax + (1 if rng.random() < 0.3 else 0), empties)[len(pre):]
             after = sim_temporal(pre + post)
             if set(after) != set(recs) and after:
                 break
@@ -788,6 +876,8 @@ def gen_uniform(rng, big=True):
             break
     case = {"kind": "uniform", "family": fam, "n": n, "k": k, "edges": es, "seed": rng.randint(0, 10 ** 6)}
     via = pick_via(rng)
+    # weighted=True with non-unit weights: the clique-expansion matrix and the eigen-equation of HEC count hyperedges, whatever they weigh
+    case["wt"] = rng.randrange(len(WEIGHT_POOL)) if rng.random() < 0.5 else None
     if via is None:
         return case
 
@@ -816,6 +906,14 @@ def gen_uniform(rng, big=True):
                 j = rng.randint(i + 1, len(pre))
                 pre.insert(j, ["rm_edge", list(e)])
                 pre.insert(rng.randint(j + 1, len(pre)), ["add_edge", list(e)])
+    if rng.random() < 0.4:
+        # a present hyperedge added once more (a weighted hypergraph adds the weights up: W still counts it once)
+        adds = [i for i, o in enumerate(pre) if o[0] == "add_edge" and tuple(sorted(o[1])) in {tuple(sorted(e)) for e in es}]
+        if adds:
+            i = rng.choice(adds)
+            e = list(pre[i][1])
+            rng.shuffle(e)
+            pre.insert(rng.randint(i + 1, len(pre)), ["add_edge", e])
     case.update({"via": via, "pre": pre})
     if via != "history":
         cur = [tuple(sorted(e)) for e in es]
@@ -897,7 +995,8 @@ def gen_dense_once(rng, cap):
         extra.append(tuple(range(nxt, nxt + rng.randint(2, 3))))
         nxt = extra[-1][-1] + 1
     iso = [nxt + i for i in range(rng.randint(0, 2))]
-    case.update({"sel": rng.randint(0, 10 ** 6), "extra": [list(e) for e in extra], "iso": iso, "lab": lab})
+    case.update({"sel": rng.randint(0, 10 ** 6), "extra": [list(e) for e in extra], "iso": iso, "lab": lab,
+                 "wt": rng.randrange(len(WEIGHT_POOL)) if rng.random() < 0.5 else None, "empty": rng.random() < 0.25})
     via = pick_via(rng)
     if via is not None:
         base = dense_edges(case)
@@ -951,7 +1050,8 @@ def parse_items(ans):
 
 
 def ekey(rank, e):
-    return ".".join(str(r) for r in sorted(rank[x] for x in e))
+    # (the hyperedge without members is written `_`, as the driver writes it)
+    return ".".join(str(r) for r in sorted(rank[x] for x in e)) or "_"
 
 
 class Values:
@@ -969,6 +1069,15 @@ class Values:
 
     def nontrivial(self):
         return len(self.vals) >= 2
+
+
+def count_class(ctx, stream, h, edges):
+    """evidence: how many judged objects carry non-unit weights / the hyperedge without members"""
+    r = guard(lambda: h.is_weighted() and any(w != 1 for w in h.get_weights()))
+    if r[0] == "ok" and r[1]:
+        ctx.count(f"{stream}_objects_with_non_unit_weights")
+    if any(len(e) == 0 for e in edges):
+        ctx.count(f"{stream}_objects_with_memberless_hyperedge")
 
 
 def check_dict(ctx, case, name, got, want_keys, ref_exact, ref_nx, vals, what_keys):
@@ -1037,7 +1146,8 @@ def static_fresh_ops(case):
 
 def static_instances(case, f=None):
     from hypergraphx import Hypergraph
-    return instances(case, Hypergraph, apply_static, sim_static, static_fresh_ops(case), f)
+    new, app = weighted_ctor(Hypergraph, apply_static, case.get("wt"))
+    return instances(case, new, app, sim_static, static_fresh_ops(case), f)
 
 
 def listing(ctx, case, tag, h, exp, f=None):
@@ -1089,7 +1199,7 @@ def check_static(ctx, drv, case):
     rcase = {**case, "relabel": [[x, relabel[x]] for x in labels]}
     if first_impl is not None:
         impl, nodes = first_impl
-        g2 = guard(lambda: next(iter(static_instances(case, lambda x: relabel[x]))))
+        g2 = guard(lambda: next(iter(static_instances(flip_wt(case), lambda x: relabel[x]))))
         if g2[0] != "ok":
             ctx.violation(rcase, f"building the relabelled hypergraph raised {g2[1]}")
         else:
@@ -1109,7 +1219,7 @@ def check_static(ctx, drv, case):
                     continue
                 d2 = r[1]
                 if set(d2) != {fk(x) for x in base} or any(not close(d2[fk(x)], base[x]) for x in base):
-                    ctx.violation(rcase, f"{fn.__name__}{args}: values are not carried along by the relabelling: {base!r} vs {d2!r}")
+                    ctx.violation(rcase, f"{fn.__name__}{args}: values are not carried along by the relabelling: {base!r} vs {d2!r}" + twin_note(case))
             if "subhg" in impl:
                 r = guard(subhypergraph_centrality, h2)
                 if r[0] != "ok":
@@ -1119,7 +1229,7 @@ def check_static(ctx, drv, case):
                     srt2 = sorted(relabel[x] for x in nodes)
                     d2 = {y: v2[i] for i, y in enumerate(srt2)} if len(v2) == len(srt2) else {}
                     if any(not close(d2.get(relabel[x], math.nan), v, 1e-8) for x, v in impl["subhg"].items()):
-                        ctx.violation(rcase, "subhypergraph_centrality: values are not carried along by the relabelling")
+                        ctx.violation(rcase, "subhypergraph_centrality: values are not carried along by the relabelling" + twin_note(case))
     ctx.case(repr(("static", case.get("via"), keys)), vals.nontrivial(), sample=case)
     ctx.count("static_str_labels" if isinstance(labels[0], str) else "static_int_labels")
     ctx.count("static_via_" + str(case.get("via") or "fresh"))
@@ -1136,6 +1246,7 @@ def check_static_obj(ctx, drv, case, h, nodes, edges, rank, vals, s_order=(1, 2,
     lines = ["load " + hgxv.enc_list([rank[x] for x in nodes]) + " " + hgxv.enc_lists([[rank[x] for x in e] for e in edges])]
     checks = [lambda a: a == "ok" or f"load answered {a!r}"]
     impl = {}
+    count_class(ctx, "static", h, edges)
 
     # --- what line_graph READS of the object besides get_edges(): len(h) and get_incident_edges(node) per node (Model/C20Reads.lean)
     reads = None
@@ -1288,7 +1399,8 @@ def run_model(ctx, drv, case, lines, checks, impl):
 def temporal_instances(case, f=None):
     from hypergraphx import TemporalHypergraph
     fresh = [["add", list(e), t] for e, t in zip(case.get("edges", []), case.get("times", []))]
-    return instances(case, TemporalHypergraph, apply_temporal, sim_temporal, fresh, f)
+    new, app = weighted_ctor(TemporalHypergraph, apply_temporal, case.get("wt"))
+    return instances(case, new, app, sim_temporal, fresh, f)
 
 
 def check_temporal(ctx, drv, case):
@@ -1324,7 +1436,7 @@ def check_temporal(ctx, drv, case):
     rcase = {**case, "relabel": [[x, relabel[x]] for x in labels]}
     if first_impl is not None:
         impl = first_impl
-        g2 = guard(lambda: next(iter(temporal_instances(case, lambda x: relabel[x]))))
+        g2 = guard(lambda: next(iter(temporal_instances(flip_wt(case), lambda x: relabel[x]))))
         if g2[0] != "ok":
             ctx.violation(rcase, f"building the relabelled temporal hypergraph raised {g2[1]}")
         else:
@@ -1344,7 +1456,7 @@ def check_temporal(ctx, drv, case):
                     continue
                 d2 = r[1]
                 if set(d2) != {fk(x) for x in base} or any(not close(d2[fk(x)], base[x]) for x in base):
-                    ctx.violation(rcase, f"{fn.__name__}{args}: values are not carried along by the relabelling: {base!r} vs {d2!r}")
+                    ctx.violation(rcase, f"{fn.__name__}{args}: values are not carried along by the relabelling: {base!r} vs {d2!r}" + twin_note(case))
     ctx.case(repr(("temporal", case.get("via"), keys)), vals.nontrivial(), sample=case)
     ctx.count("temporal_str_labels" if isinstance(case["labels"][0], str) else "temporal_int_labels")
     ctx.count("temporal_via_" + str(case.get("via") or "fresh"))
@@ -1355,6 +1467,7 @@ def check_temporal_obj(ctx, drv, case, T, recs, rank, vals, s_order=(1, 2, 3)):
     lines = ["tload " + hgxv.enc_list([t for t, _ in recs]) + " " + hgxv.enc_lists([[rank[x] for x in e] for _, e in recs])]
     checks = [lambda a: a == "ok" or f"tload answered {a!r}"]
     impl = {}
+    count_class(ctx, "temporal", T, [e for _, e in recs])
     # own snapshots: hyperedges per time; nodes = members
     tms = sorted({t for t, _ in recs})
     snap_edges = {t: [e for (u, e) in recs if u == t] for t in tms}
@@ -1367,7 +1480,7 @@ def check_temporal_obj(ctx, drv, case, T, recs, rank, vals, s_order=(1, 2, 3)):
         try:
             d = sub[1]
             want = (hgxv.enc_list(list(d.keys())) + " " + hgxv.enc_lists([[rank[x] for x in hh.get_nodes()] for hh in d.values()]) + " "
-                    + ("|".join(";".join(",".join(str(rank[x]) for x in e) for e in hh.get_edges()) for hh in d.values()) or "-"))
+                    + ("|".join(";".join(",".join(str(rank[x]) for x in e) or "_" for e in hh.get_edges()) or "_" for hh in d.values()) or "-"))
             lines.append("snaps")
             checks.append(("plain", want))
         except Exception as e:  # noqa: BLE001
@@ -1462,12 +1575,15 @@ def uniform_instances(case, f=None):
     from hypergraphx import Hypergraph
     f = f or (lambda x: x)
     edges = [tuple(e) for e in case["edges"]]
+    wt = case.get("wt")
     if not case.get("via"):
         # the constructor (the other modes go through add_edge / remove_edge)
         def gen():
-            yield "fresh", Hypergraph([tuple(f(x) for x in e) for e in edges]), sim_static([["add_edge", list(e)] for e in edges])
+            kw = {"weighted": True, "weights": [weight_of(wt, i) for i in range(len(edges))]} if wt is not None else {}
+            yield "fresh", Hypergraph([tuple(f(x) for x in e) for e in edges], **kw), sim_static([["add_edge", list(e)] for e in edges])
         return gen()
-    return instances(case, Hypergraph, apply_static, sim_static, [], f)
+    new, app = weighted_ctor(Hypergraph, apply_static, wt)
+    return instances(case, new, app, sim_static, [], f)
 
 
 class Spectrum:
@@ -1614,6 +1730,7 @@ def check_uniform_obj(ctx, drv, case, h, E, n, k, vals, full):
     from hypergraphx import Hypergraph
     from hypergraphx.measures import eigen_centralities as ec
     sp = Spectrum(n, k, E)
+    count_class(ctx, "uniform", h, E)
     slow = n > 25
     starts = (ctx.scale(3, 5) if not slow else 2) if full else 1
     np.random.seed(case["seed"])
@@ -1649,7 +1766,9 @@ def check_uniform_obj(ctx, drv, case, h, E, n, k, vals, full):
     for i in range(n):
         x0p[perm[i]] = x0[i]
     pcase = {**case, "perm": perm, "x0": x0}
-    hp = guard(lambda: Hypergraph([tuple(perm[a] for a in e) for e in E]))
+    # (the relabelled twin is weighted iff the object is not)
+    wkw = {"weighted": True, "weights": [weight_of(6, i) for i in range(len(E))]} if case.get("wt") is None else {}
+    hp = guard(lambda: Hypergraph([tuple(perm[a] for a in e) for e in E], **wkw))
     if hp[0] != "ok":
         ctx.violation(pcase, f"building the relabelled hypergraph raised {hp[1]}")
     else:
@@ -1662,7 +1781,7 @@ def check_uniform_obj(ctx, drv, case, h, E, n, k, vals, full):
             if a is not None and b is not None:
                 if any(abs(b[perm[i]] - a[i]) > 1e-9 for i in range(n)):
                     ctx.violation(pcase, f"{nm}: values are not carried along by the permutation (same start carried along): "
-                                         f"{a.tolist()} vs {b.tolist()}")
+                                         f"{a.tolist()} vs {b.tolist()}" + twin_note(case))
 
     # --- correspondence: apply, W, one step of each iteration from a dyadic start
     if drv is None:
@@ -1730,7 +1849,7 @@ def dense_ops(case):
     def le(e):
         return [dense_label(lab, v) for v in e]
     base = dense_edges(case)
-    iso = [["add_node", dense_label(lab, v)] for v in case.get("iso", [])]
+    iso = [["add_node", dense_label(lab, v)] for v in case.get("iso", [])] + ([["add_edge", []]] if case.get("empty") else [])
     fresh = [["add_edge", le(e)] for e in base] + iso
     temp = [le(e) for e in case.get("temp", [])]
     pre = [["add_edge", e] for e in temp[:1]] + [["add_edge", le(e)] for e in base[:len(base) // 2]] + [["add_edge", e] for e in temp[1:]] \
@@ -1744,20 +1863,23 @@ def dense_instances(case):
     from hypergraphx import Hypergraph
     fresh, pre = dense_ops(case)
     lab = case["lab"]
+    wt = case.get("wt")
     if not case.get("via"):
         def gen():
             edges = [tuple(o[1]) for o in fresh if o[0] == "add_edge"]
-            h = Hypergraph(edges)
+            h = Hypergraph(edges, **({"weighted": True, "weights": [weight_of(wt, i) for i in range(len(edges))]} if wt is not None else {}))
             apply_static(h, [o for o in fresh if o[0] == "add_node"])
             yield "fresh", h, sim_static(fresh)
         return gen()
     post = [[o[0], [dense_label(lab, v) for v in o[1]]] for o in case.get("post", [])]
-    return instances({"via": case["via"], "pre": pre, "post": post}, Hypergraph, apply_static, sim_static, [], None)
+    new, app = weighted_ctor(Hypergraph, apply_static, wt)
+    return instances({"via": case["via"], "pre": pre, "post": post}, new, app, sim_static, [], None)
 
 
 def subhg_judge(ctx, case, h, nodes, edges, vals):
     """subhypergraph_centrality(h) against log diag expm(A); returns (values by node, tolerance by node, judged nodes) or None"""
     import numpy as np
+    count_class(ctx, "dense", h, edges)
     from hypergraphx.measures.sub_hypergraph_centrality import subhypergraph_centrality
     srt = sorted(nodes)
     if not srt:
@@ -1821,7 +1943,8 @@ def check_dense(ctx, drv, case):
         perm = list(range(len(srt)))
         rr.shuffle(perm)
         relabel = {x: srt[perm[i]] for i, x in enumerate(srt)}
-        g2 = guard(lambda: Hypergraph([tuple(relabel[x] for x in e) for e in edges]))
+        wkw = {"weighted": True, "weights": [weight_of(5, i) for i in range(len(edges))]} if case.get("wt") is None else {}
+        g2 = guard(lambda: Hypergraph([tuple(relabel[x] for x in e) for e in edges], **wkw))
         if g2[0] != "ok":
             ctx.violation({**case, "relabelled": True}, f"building the relabelled hypergraph raised {g2[1]}")
         else:
@@ -1839,7 +1962,7 @@ def check_dense(ctx, drv, case):
                 bad = [x for x in judged if not abs(d2.get(relabel[x], math.nan) - base[x]) <= 2 * tol[x]]
                 if bad:
                     ctx.violation({**case, "relabelled": True}, f"subhypergraph_centrality: the value of node {bad[0]!r} ({base[bad[0]]!r}) is not carried along by the "
-                                                                 f"permutation of the labels ({d2.get(relabel[bad[0]])!r})")
+                                                                 f"permutation of the labels ({d2.get(relabel[bad[0]])!r})" + twin_note(case))
     ctx.case(repr(("dense", case.get("via"), keys)), vals.nontrivial(), sample=case)
     ctx.count("dense_via_" + str(case.get("via") or "fresh"))
 
@@ -2012,7 +2135,7 @@ def step_temporal(T, st, tmp):
     elif k == "add_node":
         T.add_node(st[1], **({"metadata": _md(o)} if "md" in o else {}))
     elif k == "rm_node":
-        T.remove_node(st[1])
+        T.remove_node(st[1], **({"keep_edges": bool(o["keep"])} if "keep" in o else {}))
     elif k == "set_md":
         T.set_edge_metadata(tuple(st[1]), st[2], _md(o))
     elif k == "set_weight":
@@ -2135,8 +2258,8 @@ def ask_static(ctx, drv, case, tag, h, vals, s_order=(1, 2, 3), light=False):
         ctx.count("session_skipped_labels_not_comparable")
         return ("mixed", len(nodes), len(edges))
     if any(len(e) == 0 for e in edges):
-        ctx.count("session_skipped_hyperedge_without_members")
-        return ("()", len(nodes), len(edges))
+        # the hyperedge without members is a hyperedge like any other: an isolated vertex of both projections
+        ctx.count("session_objects_with_memberless_hyperedge")
     if not members <= set(nodes):
         # a hyperedge with a member that get_nodes() does not list: the hyperedge versions are still well defined
         ctx.count("session_members_not_listed")
@@ -2173,7 +2296,7 @@ def ask_temporal(ctx, drv, case, tag, T, vals, s_order=(1, 2, 3), light=False):
         ctx.violation(icase, f"the temporal hypergraph ({tag}) lists a record twice: {recs!r}")
         return None
     if any(len(e) == 0 for _, e in recs):
-        return None
+        ctx.count("session_temporal_objects_with_memberless_hyperedge")
     rank, comparable = rank_of({x for _, e in recs for x in e})
     if not comparable:
         ctx.count("session_skipped_labels_not_comparable")
@@ -2411,10 +2534,13 @@ def good_static(rng, live, weighted, uniform=None):
     r = rng.random()
     if r < 0.42 or not edges:
         e = new_edge_over(rng, live, uniform=uniform)
-        if e:
+        if uniform is None and rng.random() < 0.1:
+            # the hyperedge without members / a singleton (whose node may leave later with keep_edges=True)
+            e = [] if rng.random() < 0.5 and () not in edges else [rng.choice(live.labels)]
+        if e is not None and (e or uniform is None):
             o = pick_md(rng)
             if weighted:
-                o["w"] = rng.choice([1, 2, 0.5, 3.25])
+                o["w"] = rng.choice([1, 2, 0.5, 3.25, 7, 0.125, 10])
             elif rng.random() < 0.2:
                 o["w"] = rng.choice([1, 1.0])
             return ["add_edge", e, o]
@@ -2426,14 +2552,17 @@ def good_static(rng, live, weighted, uniform=None):
             if rng.random() < 0.6:
                 o["md"] = [rng.choice(MAPPINGS + NON_MAPPING) for _ in es] + ([{}] if rng.random() < 0.3 else [])
             if weighted or rng.random() < 0.15:
-                o["w"] = [rng.choice([1, 2, 0.5]) for _ in es]
+                o["w"] = [rng.choice([1, 2, 0.5, 5, 0.25]) for _ in es]
             return ["add_edges", es, o]
     if r < 0.60 and edges and uniform is None:
         return ["rm_edge", list(rng.choice(edges))]
     if r < 0.66 and nodes and uniform is None:
         x = rng.choice(nodes)
-        keep = rng.random() < 0.4 and all(len(e) >= 2 for e in edges if x in e)
-        return ["rm_node", x, {"keep": keep}]
+        # (keep_edges=True on the only member of a hyperedge leaves the hyperedge without members behind)
+        single = [e[0] for e in edges if len(e) == 1]
+        if single and rng.random() < 0.5:
+            return ["rm_node", rng.choice(single), {"keep": True}]
+        return ["rm_node", x, {"keep": rng.random() < 0.5}]
     if r < 0.72 and uniform is None:
         return ["add_node", rng.choice(live.labels), pick_md(rng, 0.3, 0.3)]
     if r < 0.80 and edges:
@@ -2446,7 +2575,7 @@ def good_static(rng, live, weighted, uniform=None):
     if r < 0.97:
         return ["add_empty", rng.choice(["ph", "e9", 0, 41, "placeholder"]), {"md": rng.choice(MAPPINGS + NON_MAPPING)}]
     if edges and weighted:
-        return ["set_weight", list(rng.choice(edges)), {"w": rng.choice([1, 2.5, 4])}]
+        return ["set_weight", list(rng.choice(edges)), {"w": rng.choice([1, 2.5, 4, 0, 9])}]
     return ["add_node", rng.choice(live.labels), {}]
 
 
@@ -2586,7 +2715,7 @@ def gen_temporal_source(rng, tmp):
     from hypergraphx import TemporalHypergraph
     ints = rng.random() < 0.55
     labels = rng.sample(SESSION_INT if ints else SESSION_STR, rng.randint(4, 7))
-    weighted = rng.random() < 0.2
+    weighted = rng.random() < 0.35
     g = guard(lambda: TemporalHypergraph(weighted=weighted))
     if g[0] != "ok":
         return {"t": "temporal", "weighted": weighted, "tsteps": [], "pick": None}, None, labels, weighted
@@ -2625,9 +2754,15 @@ def gen_temporal_source(rng, tmp):
             if e is None:
                 continue
             o = pick_md(rng)
+            if rs and rng.random() < 0.08:
+                # the hyperedge without members, at a time that has records
+                e, t = [], rng.choice(rs)[0]
             if weighted:
-                o["w"] = rng.choice([1, 2, 0.5])
+                o["w"] = rng.choice([1, 2, 0.5, 7, 0.125])
             live.do(["add", e, t, o])
+        elif r < 0.54:
+            x = rng.choice(sorted({y for _, f in rs for y in f}) or labels)
+            live.do(["rm_node", x, {"keep": rng.random() < 0.7}])
         elif r < 0.58:
             t, e = rng.choice(rs)
             live.do(["rm" if rng.random() < 0.6 else "rm_rec", list(e), t])
@@ -2717,9 +2852,11 @@ def gen_session_(rng, tmp):
                 src = {"t": "new", "weighted": weighted}
             else:
                 es = [list(e) for e in dict.fromkeys(tuple(sorted(e)) for e in gen_edges(rng, labels, 1, 5))]
+                if rng.random() < 0.15:
+                    es.insert(rng.randint(0, len(es)), [])
                 src = {"t": "ctor", "edges": es, "weighted": weighted}
                 if weighted:
-                    src["weights"] = [rng.choice([1, 2, 0.5]) for _ in es]
+                    src["weights"] = [rng.choice([1, 2, 0.5, 6, 0.25]) for _ in es]
                 if rng.random() < 0.5:
                     src["edge_md"] = [rng.choice(MAPPINGS + NON_MAPPING) for _ in es]
                 if rng.random() < 0.4:
@@ -2756,7 +2893,10 @@ def gen_session_(rng, tmp):
             labels = list(range(n))
             uniform = k
             es = gen_uniform_edges(rng, n, k)
-            src = {"t": "ctor", "edges": es, "weighted": False}
+            weighted = rng.random() < 0.5
+            src = {"t": "ctor", "edges": es, "weighted": weighted}
+            if weighted:
+                src["weights"] = [rng.choice([2, 0.5, 7, 3.25, 1, 4, 0.125]) for _ in es]
             if rng.random() < 0.5:
                 src["edge_md"] = [rng.choice(MAPPINGS + NON_MAPPING) for _ in es]
         g = guard(source_static, src, tmp)
@@ -2853,7 +2993,7 @@ FIXED = [
 def run(ctx):
     drv = ctx.driver() if ctx.model_available else None
     ill_conditioned_witness(ctx)
-    for case in FIXED + (SESSION_FIXED if not os.environ.get("C20_NO_ZOO") else []):
+    for case in (FIXED if not os.environ.get("C20_NO_FIXED") else []) + (SESSION_FIXED if not os.environ.get("C20_NO_ZOO") else []):
         check_case(ctx, drv, case)
     n = ctx.scale(300, 12000)
     cap = ctx.scale(450, 1500)
@@ -2875,7 +3015,7 @@ def run(ctx):
         t0 = time.time()
         check_case(ctx, drv, case)
         spent[case.get("kind")] = spent.get(case.get("kind"), 0.0) + time.time() - t0
-        if ctx.too_many() or (ctx.time_left() is not None and ctx.time_left() < 8):
+        if ctx.too_many() or (ctx.time_left() is not None and ctx.time_left() < ctx.scale(15, 8)):
             ctx.count("stopped_by_budget")
             break
     for k, v in spent.items():
